@@ -732,17 +732,18 @@ def generate_ofm_scaling_for_pooling(emit: CommandStreamEmitter, pool_op: NpuPoo
             scale = int(round_away_zero(scale * rescale))
     else:
         # In case avg pool fused with concat or other memory operation, rescaling might be needed.
-        # kernel height == kernel width == 1 is always true in this case
+        # kernel height == kernel width == 1 is true in that case, but an average pool with different IFM and OFM scales
+        # ends up here with any kernel size.
         # Normally the scale is maximised, to get maximum precision, which means that
         # if rescale != 1, scale need to consider the number of bits needed for rescaling
         if ofm_quant.scale_f32 is not None and ifm_quant.scale_f32 is not None:
             rescale = ifm_quant.scale_f32 / ofm_quant.scale_f32
             rescale_bits = 0
-            if kernel.height == kernel.width == 1:
-                if rescale > 1:
-                    rescale_bits = len(bin(round_up_to_int(rescale))) - 2 + 1
-                elif rescale < 1:
-                    rescale_bits = -(len(bin(round_up_to_int(1 / rescale))) - 2 - 1)
+            if rescale > 1:
+                # the scaled value must still fit the 32-bit scale register
+                rescale_bits = len(bin(round_up_to_int(rescale))) - 2 + 1
+            elif rescale < 1 and kernel.height == kernel.width == 1:
+                rescale_bits = -(len(bin(round_up_to_int(1 / rescale))) - 2 - 1)
             scale, shift = scaling.quantise_pooling_scale(kernel.height * kernel.width, rescale_bits)
             scale = int(round_away_zero(scale * rescale))
         else:
